@@ -28,8 +28,8 @@ from . import common
 PROP = "C16"
 RULE = ("arrays built from seeded recipes (uniform / clustered / constant / "
         "duplicate-heavy / ramp / outlier shapes per axis, NaN and +-inf "
-        "injected: none, few, many, all, at the edges), sizes 0..3000 (quick; "
-        "one 2e4) and up to 1e5 (thorough); requests 0, 1, 2, around the "
+        "injected: none, few, many, all, one, at the edges), sizes 0..1500 plus "
+        "one 4000 (quick), 0..6000 plus 2e4, 5e4, 1e5 (thorough); requests 0, 1, 2, around the "
         "number of valid points, around N, beyond N and random; both "
         "remove_invalid modes; datasets (RTDC_Dict) with box, polygon, manual "
         "and invalid filters, 'limit events', linear and log scale. "
@@ -49,6 +49,10 @@ TRUSTED_BASE = [
     "machine: blocks of four give 2**31, the remainder 0",
     "_apply_scale is elementwise; np.log computed by the harness",
     "the de-cythoniser harness/translators/decythonize.py",
+    "dclab.cached.Cache (decorator of downsample_grid) is exercised (second "
+    "call of every case is a cache hit) but not modelled (C17)",
+    "results with more than 600 events are compared through a polynomial "
+    "digest computed on both sides",
     "box/polygon/invalid/manual filter arrays are inputs (C03/C15)",
 ]
 ASSUMPTIONS = [
@@ -513,7 +517,7 @@ def gen_ds_case(rng, thorough):
                          yscale=rng.choice(["linear", "linear", "log"]),
                          ri=int(rng.random() < 0.5)))
     case.update(box=box, manual=manual, poly=poly, limit=limit, enable=enable,
-                rie=rie, requests=reqs)
+                rie=rie, requests=reqs, child=int(rng.random() < 0.3))
     return case
 
 
@@ -701,6 +705,61 @@ def scaled(arr, scale):
     return arr
 
 
+def do_requests(ds, data, fall, requests, name, rng, obs, fails):
+    """get_downsampled_scatter requests on one dataset; data: the feature
+    arrays of that dataset as the harness knows them, fall: its filter.all"""
+    import numpy as np
+    n = len(fall)
+    if len(ds) != n:
+        fails.append(("%s: dataset has %d events, expected %d" % (
+            name, len(ds), n), None))
+        return
+    for rq in requests:
+        kw = dict(xax=rq["xax"], yax=rq["yax"],
+                  downsample=rq["downsample"], xscale=rq["xscale"],
+                  yscale=rq["yscale"], remove_invalid=bool(rq["ri"]))
+        what = "%s: get_downsampled_scatter(%s) with %d of %d " \
+               "events filtered" % (name, json.dumps(kw), int(fall.sum()), n)
+        clear_cache()
+        perturb(rng)
+        r1 = call(ds.get_downsampled_scatter, ret_mask=True, **kw)
+        r2 = call(ds.get_downsampled_scatter, ret_mask=True, **kw)
+        perturb(rng)
+        r0 = call(ds.get_downsampled_scatter, **kw)
+        xf, yf = data[rq["xax"]], data[rq["yax"]]
+        xs, ys = scaled(xf, rq["xscale"]), scaled(yf, rq["yscale"])
+        good = np.isfinite(xs) & np.isfinite(ys)
+        extra = (rq, xf, yf, fall)
+        if not same(r1, r2):
+            fails.append((what + ": repeated calls disagree", None))
+        if isinstance(r1, ValueError) and rq["downsample"] < 0:
+            # documented rejection, not part of the quantifier
+            obs.append(("scatter", [3], extra))
+            continue
+        if isinstance(r1, Exception):
+            fid = None
+            req = rq["downsample"]
+            if isinstance(r1, ValueError) and not rq["ri"] and \
+                    req > int(fall.sum()):
+                fid = F_PAD
+            elif isinstance(r1, IndexError) and \
+                    0 < req < int((good & fall).sum()) and \
+                    constant_axis(xs[fall], ys[fall]):
+                fid = F_CONST
+            fails.append((what + " raised %r" % (r1,), fid))
+            obs.append(("scatter", flat_error(r1), extra))
+            continue
+        xr, yr, mask = r1
+        if isinstance(r0, Exception) or not same(r0, (xr, yr)):
+            fails.append((what + ": result without ret_mask differs", None))
+        elig = (fall & good) if rq["ri"] else fall
+        msg = oracle_selection([xf, yf], [xr, yr], mask, rq["downsample"],
+                               elig, True, what)
+        if msg:
+            fails.append((msg, None))
+        obs.append(("scatter", flat_result(xr, yr, mask), extra))
+
+
 def exec_ds_case(case, rng):
     import numpy as np
     import dclab
@@ -767,48 +826,21 @@ def exec_ds_case(case, rng):
                                 want), None))
                 obs.append(("filter", [0, int(fall.sum())] + flat_mask(fall),
                             (box, inv, pol, man, fall)))
-                for rq in case["requests"]:
-                    kw = dict(xax=rq["xax"], yax=rq["yax"],
-                              downsample=rq["downsample"], xscale=rq["xscale"],
-                              yscale=rq["yscale"],
-                              remove_invalid=bool(rq["ri"]))
-                    what = "%s: get_downsampled_scatter(%s) with %d of %d " \
-                           "events filtered" % (name, json.dumps(kw),
-                                                int(fall.sum()), n)
-                    clear_cache()
-                    perturb(rng)
-                    r1 = call(ds.get_downsampled_scatter, ret_mask=True, **kw)
-                    r2 = call(ds.get_downsampled_scatter, ret_mask=True, **kw)
-                    perturb(rng)
-                    r0 = call(ds.get_downsampled_scatter, **kw)
-                    xf, yf = data[rq["xax"]], data[rq["yax"]]
-                    xs, ys = scaled(xf, rq["xscale"]), scaled(yf, rq["yscale"])
-                    good = np.isfinite(xs) & np.isfinite(ys)
-                    if not same(r1, r2):
-                        fails.append((what + ": repeated calls disagree", None))
-                    if isinstance(r1, Exception):
-                        fid = None
-                        req = rq["downsample"]
-                        if isinstance(r1, ValueError) and not rq["ri"] and \
-                                req > int(fall.sum()):
-                            fid = F_PAD
-                        elif isinstance(r1, IndexError) and \
-                                0 < req < int((good & fall).sum()) and \
-                                constant_axis(xs[fall], ys[fall]):
-                            fid = F_CONST
-                        fails.append((what + " raised %r" % (r1,), fid))
-                        obs.append(("scatter", flat_error(r1), rq))
-                        continue
-                    xr, yr, mask = r1
-                    if isinstance(r0, Exception) or not same(r0, (xr, yr)):
-                        fails.append((what + ": result without ret_mask "
-                                      "differs", None))
-                    elig = (fall & good) if rq["ri"] else fall
-                    msg = oracle_selection([xf, yf], [xr, yr], mask,
-                                           rq["downsample"], elig, True, what)
-                    if msg:
-                        fails.append((msg, None))
-                    obs.append(("scatter", flat_result(xr, yr, mask), rq))
+                do_requests(ds, data, fall, case["requests"], name, rng, obs,
+                            fails)
+                if case.get("child") and int(fall.sum()) > 0:
+                    # the same requests on a hierarchy child of the filtered
+                    # dataset: its events are the filtered events of ds
+                    child = call(dclab.new_dataset, ds)
+                    if isinstance(child, Exception):
+                        fails.append(("%s: hierarchy child: %r" % (name, child),
+                                      None))
+                    else:
+                        child.apply_filter()
+                        cdata = {k: v[fall] for k, v in data.items()}
+                        do_requests(child, cdata, child.filter.all.copy(),
+                                    case["requests"][:2], name + " child", rng,
+                                    obs, fails)
             t, pr = table_from_calls(rec.calls)
             rows.update(t)
             problems += ["%s: %s" % (name, p) for p in pr]
@@ -834,14 +866,13 @@ def exec_ds_case(case, rng):
                                   r_bools(man)],
                               [case["enable"], case["limit"]], rows)
         else:
-            rq = ob[2]
-            xf, yf = data[rq["xax"]], data[rq["yax"]]
+            rq, xf, yf, fall_used = ob[2]
             xs, ys = scaled(xf, rq["xscale"]), scaled(yf, rq["yscale"])
             rendered = render(3, [r_pairs(array_to_pairs(xf)),
                                   r_pairs(array_to_pairs(yf)),
                                   r_pairs(exact_pairs(xs)),
                                   r_pairs(exact_pairs(ys)),
-                                  r_bools(fall_ref)],
+                                  r_bools(fall_used)],
                               [rq["downsample"], rq["ri"]], rows)
         checks.append((rendered, flats))
     return dict(checks=checks, fails=fails, nontrivial=nontrivial,
@@ -888,11 +919,11 @@ def gen_cases(rng, thorough, ngrid, nrand, nds):
         cases.append(gen_ds_case(rng, thorough))
     # a few large arrays (sizes up to 1e5 in the thorough tier)
     if thorough:
-        for n in (20000, 20000, 50000, 100000, 100000):
+        for n in (20000, 50000, 100000):
             cases.append(big_case(rng, n))
         cases.append(big_case(rng, 100000, "rand"))
     else:
-        cases.append(big_case(rng, 6000))
+        cases.append(big_case(rng, 4000))
     return cases
 
 
@@ -901,10 +932,39 @@ def raise_stack_limit():
     limit is inherited by the coqc child processes"""
     import resource
     soft, hard = resource.getrlimit(resource.RLIMIT_STACK)
+    want = 2 ** 31
+    if hard != resource.RLIM_INFINITY:
+        want = min(want, hard)
     try:
-        resource.setrlimit(resource.RLIMIT_STACK, (hard, hard))
+        resource.setrlimit(resource.RLIMIT_STACK, (want, hard))
     except (ValueError, OSError):
         pass
+
+
+def balanced_coq_map(run, rendered, nbuckets):
+    """common.coq_map over buckets of similar total literal size (parsing the
+    literals dominates; a few cases are a thousand times larger than most)"""
+    import concurrent.futures
+    order = sorted(range(len(rendered)), key=lambda i: -len(rendered[i]))
+    buckets = [[] for _ in range(nbuckets)]
+    load = [0] * nbuckets
+    for i in order:
+        k = load.index(min(load))
+        buckets[k].append(i)
+        load[k] += len(rendered[i]) + 200
+    buckets = [b for b in buckets if b]
+    out = [None] * len(rendered)
+
+    def work(k):
+        b = buckets[k]
+        res = common.coq_map(run.scratch, "c16_%d" % k, HEADER, "run_flat",
+                             [rendered[i] for i in b], shard=len(b) + 1,
+                             timeout=3000)
+        for i, r in zip(b, res):
+            out[i] = r
+    with concurrent.futures.ThreadPoolExecutor(max_workers=common.NCPU) as ex:
+        list(ex.map(work, range(len(buckets))))
+    return out
 
 
 def run(run):
@@ -915,9 +975,9 @@ def run(run):
     cases = load_corpus()
     run.count("corpus", len(cases))
     if run.thorough:
-        cases += gen_cases(run.rng, True, 3000, 800, 500)
+        cases += gen_cases(run.rng, True, 2000, 500, 300)
     else:
-        cases += gen_cases(run.rng, False, 330, 90, 60)
+        cases += gen_cases(run.rng, False, 280, 80, 50)
     rendered = []
     owners = []
     for c in cases:
@@ -945,8 +1005,7 @@ def run(run):
             rendered.append(r)
             owners.append((c, flats))
     t1 = time.time()
-    model = common.coq_map(run.scratch, "c16", HEADER, "run_flat", rendered,
-                           shard=max(20, len(rendered) // 32 + 1))
+    model = balanced_coq_map(run, rendered, 32 if run.thorough else 16)
     run.extra["time_impl_s"] = round(t1 - t0, 1)
     run.extra["time_model_s"] = round(time.time() - t1, 1)
     for (c, flats), m in zip(owners, model):
